@@ -30,8 +30,9 @@ ASSUMPTIONS = ["dict iteration order = insertion order (CPython >= 3.7)",
 LEVEL_TEXT = ("Proof (Coq) over a Gallina transcription of the footnote pipeline (MyST renderer part + SortFootnotes + docutils Footnotes + "
               "UnreferencedFootnotesDetector + CollectFootnotes, ordered by the regenerated priorities), for all arrangements and both settings: "
               "references point at their definition with the same number and are back-linked (C11_refs_point_to_defs), displayed labels are "
-              "pairwise distinct (C11_labels_distinct), auto numbers follow first reference when sorting is on (C11_auto_order_partial; refuted "
-              "for sorting off: C11_auto_order_refuted, open finding), collection/ordering/transition (C11_collect_sorted, C11_stay_put), "
+              "pairwise distinct (C11_labels_distinct), auto numbers follow first reference when sorting is on (C11_auto_order_partial, "
+              "C11_referenced_first_partial; refuted for sorting off: C11_auto_order_refuted, open finding), numeric labels keep their number "
+              "(C11_manual_keeps_number), collection/ordering/transition (C11_collect_sorted, C11_stay_put), "
               "duplicates and unreferenced definitions warn once (C11_dup_and_unreferenced), no definition text is lost (C11_no_text_lost), "
               "transform order from the source (C11_transform_order), no fuel exhaustion (C11_total).")
 LEVEL_NOTE = ("Partial: docutils' Footnotes transform and registries are modelled from the installed source (hypothesis-level trust, exercised by "
@@ -315,8 +316,8 @@ def case_stream(ctx, for_search=False):
     for arr in fixed:
         for s, t in settings:
             yield {"kind": "arr", "arr": arr, "sort": s, "trans": t}
-    thorough = ctx.tier == "thorough" or ctx.deep
-    n1 = ctx.budget(4, 5, 5)
+    thorough = ctx.tier == "thorough"      # a deepened quick run only widens the random stream
+    n1 = ctx.budget(4, 5, 5 if ctx.tier == "thorough" else 4)
     for arr in small_arrangements(["a", "b", "1"], n1):
         # short arrangements under all four settings, the longest ones under (on,on) and (off,off)
         full = len(arr) <= (4 if thorough else 3)
@@ -329,7 +330,7 @@ def case_stream(ctx, for_search=False):
         for arr in small_arrangements(["a", "1"], 6, with_box=False):
             for s, t in settings[:2]:
                 yield {"kind": "arr", "arr": arr, "sort": s, "trans": t}
-    for i in range(ctx.budget(2000, 30000, 45000)):
+    for i in range(ctx.budget(2000, 30000, 45000 if ctx.tier == 'thorough' else 25000)):
         s, t = settings[i % 4]
         yield {"kind": "arr", "arr": random_arrangement(ctx.rng, big=(i % 5 == 0)), "sort": s, "trans": t}
 
@@ -494,6 +495,17 @@ def check_arr(ctx, case, obs=None):
         sig = "auto-order:sort-off-definition-order" if not sort else "auto-order:sort-on"
         fail(sig, f"auto-numbered footnotes in order of first reference {order} are numbered {nums} (footnote_sort={sort})",
              "increasing", nums)
+    if sort and nums is not None:
+        # in order of first reference means: the k-th label referenced gets the k-th number that no
+        # numeric label occupies; definitions nobody references are numbered after them
+        free, n = [], 1
+        while len(free) < len(order):
+            if str(n) not in first:
+                free.append(n)
+            n += 1
+        if nums != free and not any(a >= b for a, b in zip(nums, nums[1:])):
+            fail("auto-order:sort-on:not-first-free",
+                 f"auto-numbered footnotes in order of first reference {order} are numbered {nums}, expected {free}", free, nums)
     # collection
     exp_layout = written_layout(arr)
     if sort:
